@@ -157,7 +157,7 @@ def main():
         na.append({"property_id": pid, "reason": reason})
     manifest = {
         "version": 1,
-        "setup_cmd": "./check build && /verif/target/release/krill-sim determinism c01 424242 24 && /verif/target/release/krill-sim determinism c19net 424242 8 && /verif/target/release/krill-sim determinism c07fail 424242 8 && /verif/target/release/krill-sim determinism c10fail 424242 8",
+        "setup_cmd": "./check build && /verif/target/release/krill-sim determinism c01 424242 24 && /verif/target/release/krill-sim determinism c19net 424242 8 && /verif/target/release/krill-sim determinism c07fail 424242 8 && /verif/target/release/krill-sim determinism c10fail 424242 8 && /verif/target/release/krill-sim determinism netcrash 424242 8 && /verif/target/release/krill-sim determinism c18 424242 8",
         "hooks": {
             "guard": "cargo feature `verif-hooks` of the krill crate (off by default)",
             "enable": "the simulator crate /verif/sim depends on krill = { path = \"/repo\", features = [\"verif-hooks\"] }; every ./check invocation rebuilds it with `cargo build --release --offline`",
